@@ -5,14 +5,16 @@
 (*   (...((idx[1]*s[2] + idx[2])*s[3] + idx[3])...)                      *)
 (* Multi-indices are 0-based (as in the Python API); flat LABELS used   *)
 (* by specs are 1-based so that they can index TLA+ sequences.          *)
-EXTENDS Integers, Sequences, FiniteSets
+EXTENDS Integers, Sequences, FiniteSets, TLC
 
 RECURSIVE Prod(_)
-Prod(s) == IF Len(s) = 0 THEN 1 ELSE Head(s) * Prod(Tail(s))
+ProdB(s) == IF Len(s) = 0 THEN 1 ELSE Head(s) * Prod(Tail(s))
 
+Prod(s) == ProdB(s)   \* TLC does not cache arguments of RECURSIVE operators; the body operator does
 RECURSIVE SumSeq(_)
-SumSeq(s) == IF Len(s) = 0 THEN 0 ELSE Head(s) + SumSeq(Tail(s))
+SumSeqB(s) == IF Len(s) = 0 THEN 0 ELSE Head(s) + SumSeq(Tail(s))
 
+SumSeq(s) == SumSeqB(s)   \* TLC does not cache arguments of RECURSIVE operators; the body operator does
 Min2(a, b) == IF a <= b THEN a ELSE b
 Max2(a, b) == IF a >= b THEN a ELSE b
 
@@ -21,12 +23,13 @@ FloorDiv(a, b) == a \div b     \* TLA+ \div is floor division for b > 0
 PyMod(a, b) == a % b           \* TLA+ % is non-negative for b > 0
 
 RECURSIVE FlatOf(_, _)
-FlatOf(idx, s) ==
+FlatOfB(idx, s) ==
   IF Len(s) = 0 THEN 0
   ELSE FlatOf(SubSeq(idx, 1, Len(s) - 1), SubSeq(s, 1, Len(s) - 1)) * s[Len(s)] + idx[Len(s)]
 
+FlatOf(idx, s) == FlatOfB(idx, s)   \* TLC does not cache arguments of RECURSIVE operators; the body operator does
 MultiOf(p, s) ==
-  [d \in 1..Len(s) |-> (p \div Prod(SubSeq(s, d + 1, Len(s)))) % s[d]]
+  TLCEval([d \in 1..Len(s) |-> (p \div Prod(SubSeq(s, d + 1, Len(s)))) % s[d]])
 
 \* all multi-indices of a shape, as a set
 Indices(s) == {MultiOf(p, s) : p \in 0..(Prod(s) - 1)}
@@ -36,17 +39,18 @@ NormAxis(a, r) == a % r
 ValidAxis(a, r) == a >= -r /\ a < r
 
 \* numpy broadcasting of two shapes after left-padding with ones
-PadLeft(s, r) == [d \in 1..r |-> IF d <= r - Len(s) THEN 1 ELSE s[d - (r - Len(s))]]
+PadLeft(s, r) == TLCEval([d \in 1..r |-> IF d <= r - Len(s) THEN 1 ELSE s[d - (r - Len(s))]])
 Broadcastable(s, t) ==
   LET r == Max2(Len(s), Len(t)) IN
   \A d \in 1..r : LET a == PadLeft(s, r)[d]  b == PadLeft(t, r)[d] IN a = b \/ a = 1 \/ b = 1
 BroadcastShape(s, t) ==
   LET r == Max2(Len(s), Len(t)) IN
-  [d \in 1..r |-> Max2(PadLeft(s, r)[d], PadLeft(t, r)[d])]
+  TLCEval([d \in 1..r |-> Max2(PadLeft(s, r)[d], PadLeft(t, r)[d])])
 
 \* concatenation of sequences of sequences
 RECURSIVE Concat(_)
-Concat(ss) == IF Len(ss) = 0 THEN <<>> ELSE Head(ss) \o Concat(Tail(ss))
+ConcatB(ss) == IF Len(ss) = 0 THEN <<>> ELSE Head(ss) \o Concat(Tail(ss))
 
+Concat(ss) == ConcatB(ss)   \* TLC does not cache arguments of RECURSIVE operators; the body operator does
 Range(f) == {f[x] : x \in DOMAIN f}
 =======================================================================
